@@ -1039,14 +1039,22 @@ fn alloc_bound(len: usize) -> usize {
     ALLOC_K * (len + ALLOC_C)
 }
 
+/// A frame that processes ONE junk message: nothing else grows in it, so the bound is much tighter
+/// (on the unchanged tree the largest request in such a frame is below 2 KiB).
+const ALLOC_C_SINGLE: usize = 1 << 10;
+fn alloc_bound_single(len: usize) -> usize {
+    ALLOC_K * (len + ALLOC_C_SINGLE)
+}
+
 /// Checks that hold for every frame, whatever was sent. Returns (kind, detail) problems.
-fn generic_problems(obs: &FrameObs, min_len: usize, channels: &BTreeSet<usize>) -> Vec<(&'static str, String)> {
+fn generic_problems(obs: &FrameObs, min_len: usize, channels: &BTreeSet<usize>, single: bool) -> Vec<(&'static str, String)> {
     let mut out = Vec::new();
     if let Some(p) = &obs.panic {
         out.push(("panic", p.clone()));
     }
-    if obs.max_alloc > alloc_bound(min_len) {
-        out.push(("alloc", format!("largest single allocation request {} > {} * ({} + {})", obs.max_alloc, ALLOC_K, min_len, ALLOC_C)));
+    let (bound, c) = if single { (alloc_bound_single(min_len), ALLOC_C_SINGLE) } else { (alloc_bound(min_len), ALLOC_C) };
+    if obs.max_alloc > bound {
+        out.push(("alloc", format!("largest single allocation request {} > {} * ({} + {})", obs.max_alloc, ALLOC_K, min_len, c)));
     }
     if let Some(c) = &obs.others_changed {
         out.push(("others", format!("state of the other client / the world changed: {}", &c[..c.len().min(600)])));
@@ -1082,7 +1090,7 @@ fn run_single(rig: &mut Rig, case: &Case, rep: &mut Report) -> bool {
     }
     let mut bad = false;
     let chans: BTreeSet<usize> = [case.ch].into_iter().collect();
-    for (kind, detail) in generic_problems(&obs, bytes.len(), &chans) {
+    for (kind, detail) in generic_problems(&obs, bytes.len(), &chans, true) {
         rep.mismatch(case, kind, detail, obs_json(&obs, k));
         bad = true;
     }
@@ -1159,7 +1167,7 @@ fn run_batch(rig: &mut Rig, cases: &[Case], fresh: bool, rep: &mut Report) {
     let min_len = inputs.iter().map(|i| i.2.len()).min().unwrap_or(0);
     let chans: BTreeSet<usize> = cases.iter().map(|c| c.ch).collect();
     let obs = rig.junk_frame(&inputs);
-    let mut problems = generic_problems(&obs, min_len, &chans);
+    let mut problems = generic_problems(&obs, min_len, &chans, false);
     if obs.max_alloc > rep.stats.max_alloc {
         rep.stats.max_alloc = obs.max_alloc;
         rep.stats.max_alloc_id = json!(format!("batch:{}", cases[0].id));
